@@ -37,6 +37,15 @@ class TokStream:
     def jumped(self, i):
         return TokStream(chain=i, k=0)
 
+    # numpy bit generators expose their position as a settable ``state``
+    @property
+    def state(self):
+        return {"chain": self.chain, "k": self.k}
+
+    @state.setter
+    def state(self, value):
+        self.chain, self.k = value["chain"], value["k"]
+
     def standard_normal(self, size=None):
         return np.zeros(size)
 
